@@ -67,6 +67,11 @@ func (x *Run) fieldArr(ty types.Type, field int) string {
 		x.arrRefEl[name] = true
 		x.mu.Unlock()
 	}
+	if sl, ok := types.Unalias(ft).Underlying().(*types.Slice); ok && isRefType(sl.Elem()) {
+		x.mu.Lock()
+		x.arrSliceRefEl[name] = string(x.d.sortOf(ft))
+		x.mu.Unlock()
+	}
 	return name
 }
 
@@ -360,7 +365,15 @@ func (x *Run) storeAddr(st *State, a *Addr, v Val, site ssa.Instruction) {
 		x.setArr(st, name, store(x.arr(st, name), a.Ref, v.T))
 		st.dirty[name] = true
 	case AElem:
-		x.unsupported("store into slice element (value-semantics slices)", site.Pos())
+		if a.rebind == nil || len(a.Sel) != 0 {
+			x.unsupported("store into slice element (value-semantics slices)", site.Pos())
+			return
+		}
+		// slices are values: the SSA value naming the slice is re-bound (A-SLICE:
+		// other values sharing the backing array do not observe the store)
+		s := *a.Slice
+		nv := Val{T: x.mkSlice(s.S, store(x.sliceArr(s), a.Idx, v.T), x.sliceLen(s)), S: s.S, Ty: s.Ty}
+		a.rebind(nv)
 	}
 }
 
@@ -409,6 +422,9 @@ func (x *Run) mapArrs(mt *types.Map) mapArrs {
 	x.mu.Lock()
 	if isRefType(mt.Elem()) {
 		x.arrRefEl[m.val] = true
+	}
+	if sl, ok := types.Unalias(mt.Elem()).Underlying().(*types.Slice); ok && isRefType(sl.Elem()) {
+		x.arrSliceRefEl[m.val] = string(vs)
 	}
 	if x.mapZero[m.val] == "" {
 		x.mu.Unlock()
